@@ -13,9 +13,19 @@ import (
 
 // C13/C06: the end-block sweep at height h ends every pool queued at h: its remaining reward goes
 // back to the creator exactly once, the queue entry disappears, later pools are untouched, no panic.
-func VerifC13_FarmEndBlock() {
-	verifExpect("swept")
-	const h = int64(30)
+type c13Pool struct {
+	id             string
+	end            int64
+	locked, remain sdkmath.Int
+	rpb            sdkmath.Int
+	last           int64
+}
+
+const c13H = int64(30)
+
+// c13FarmState: one or two pools due at the current height, one due later, arbitrary within the invariants.
+func c13FarmState() (*vEnv, keeper.Keeper, sdk.AccAddress, []c13Pool) {
+	const h = c13H
 	const lpt, reward = "lpt-1", "stake"
 	e := newVEnv(types.StoreKey, h, lpt, reward)
 	e.bank.modules[types.ModuleName] = []string{authtypes.Burner}
@@ -28,13 +38,7 @@ func VerifC13_FarmEndBlock() {
 		verifFail("default params rejected")
 	}
 	zero, one, w := big.NewInt(0), big.NewInt(1), verifPow2(64)
-	type ps struct {
-		id             string
-		end            int64
-		locked, remain sdkmath.Int
-		rpb            sdkmath.Int
-		last           int64
-	}
+	type ps = c13Pool
 	mk := func(n string, id string, end int64) ps {
 		p := ps{id: id, end: end, locked: verifIntIn("locked"+n, zero, w), remain: verifIntIn("remaining"+n, zero, w), rpb: verifIntIn("rpb"+n, one, w)}
 		p.last = end - int64(verifChoice("gap"+n, 3))
@@ -63,6 +67,14 @@ func VerifC13_FarmEndBlock() {
 	}
 	e.bank.fund(vModuleAddr(types.ModuleName), lpt, sdkmath.NewIntFromBigInt(escL))
 	e.bank.fund(vModuleAddr(types.ModuleName), reward, sdkmath.NewIntFromBigInt(escR)) // F2
+	return e, k, creator, pools
+}
+
+func VerifC13_FarmEndBlock() {
+	verifExpect("swept")
+	const h = c13H
+	const reward = "stake"
+	e, k, creator, pools := c13FarmState()
 	ctx := e.ctx.WithBlockHeight(h)
 	c0 := e.bank.get(creator, reward).BigInt()
 	panicked, what := verifCatch(func() { EndBlocker(ctx, k) })
